@@ -64,7 +64,9 @@ theorem kernel_depth_from_u8 (n : Nat) (hn : n < 256) :
   exact ⟨optEq_spec h.1.1, optEq_spec h.1.2, h.2⟩
 
 /-- the fifteen legal pairs: what `from_u8` twice followed by `is_combination_invalid` lets through is `legalPairs`
-    (`Model/Basic.lean`; `Props/KernelsCommon.kernel_combination_invalid` is the third ingredient) -/
+    (`Model/Basic.lean`; `Props/KernelsCommon.kernel_combination_invalid` is the third ingredient: it is stated for the values that
+    passed the two `from_u8`, `colorOk c` and `depthOk d`, which is exactly where the first two conjuncts here are `true`; off that
+    domain `is_combination_invalid` is never called and nothing is claimed about it) -/
 theorem kernel_legal_pairs (c d : Nat) (hc : c < 256) (hd : d < 256) :
     ((Gen.ColorType_from_u8 c).isSome && (Gen.BitDepth_from_u8 d).isSome && !combinationInvalid c d) = decide ((c, d) ∈ legalPairs) := by
   have hcn := (kernel_color_from_u8 c hc).1
